@@ -117,8 +117,8 @@ fn history_case(id: String, rng: &mut Rng) -> Case {
                 ops.push(format!("cl {}", i));
             },
             5..=7 => {
-                // send 1..3 regions in one small message, then receive it
-                let n = rng.range(1, 3) as usize;
+                // send 1..8 regions in one small message (the quantifier of C05; theorem C05_many_in_order), then receive it
+                let n = rng.range(1, 8) as usize;
                 let picks: Vec<usize> = (0..n).map(|_| live[rng.below(live.len() as u64) as usize]).collect();
                 let mut regions = Vec::new();
                 let base = hs.len();
